@@ -283,6 +283,8 @@ def build():
         "_FUNCTION_HASHES": lambda interp: Opaque("fhashes", None),
     }
 
+    # (format_signature / format_call: a string, never an exception - proved on the real bodies in contracts/fmt.py, where pprint of a user's
+    # argument may raise what its __repr__ raises)
     # repr() of a user's argument runs the user's __repr__: it may raise anything
     orig_repr = p.models.get("builtin:repr")
 
@@ -353,8 +355,9 @@ def build():
         return (garb, INT.fresh(ctx, "garbled_line"))
 
     glob["extract_first_line"] = lambda interp: _Fn(extract_first_line)
-    p.assume_note("extract_first_line(text of a complete func_code.py) == (source, first line) that _write_func_code formatted (inverse pair, checked "
-                  "natively); on a torn file it returns some text different from the current source, and it never raises (repaired: fix commit)")
+    p.assume_note("extract_first_line is used through its summary: on a complete func_code.py it returns the (source, first line) that _write_func_code formatted, "
+                  "on a torn file some text different from the current source, and it never raises - the summary is PROVED on the real body in contracts/xfl.py "
+                  "(totality for every text, inverse pair for the written format); that a torn file never parses to exactly the current source stays assumed")
     p.models["Src.split"] = lambda i, r, a, k: Opaque("lines", None)
     p.models["len:lines"] = lambda i, v: INT.fresh(i.ctx, "nlines")
     p.models["Src.rstrip"] = lambda i, r, a, k: STR.fresh(i.ctx, "rs")
@@ -365,8 +368,18 @@ def build():
     p.models["slice:lines"] = lambda i, r, lo, hi: r
     p.models["join"] = lambda i, sep, src: STR.fresh(i.ctx, "joined")
     p.models["warnings.warn"] = lambda i, a, k: None
-    p.models["cvc.__call__"] = lambda i, fv, a, k: BOOL.fresh(i.ctx, "valid")
-    p.assume_note("a user cache_validation_callback is total on metadata dicts (returns a bool, raises nothing)")
+    def user_callback(i, fv, a, k):
+        # doc/memory.rst: the callback receives the metadata of the call - a dict with 'duration', 'time' and 'input_args' - and the documented
+        # example indexes it (metadata['duration'] > 1).  On the dict of a readable metadata.json it returns a bool; handed a dict WITHOUT
+        # those keys (what get_metadata returns for a missing / torn file) it may raise KeyError.
+        md = a[0]
+        if isinstance(md, PyDict) and "duration" not in md.d:
+            if i.ctx.choose(2, "callback-indexes-a-documented-key") == 1:
+                i.raise_("KeyError")
+        return BOOL.fresh(i.ctx, "valid")
+
+    p.models["cvc.__call__"] = user_callback
+    p.assume_note("a user cache_validation_callback returns a bool on a metadata dict holding the documented keys (duration, time, input_args) and may raise KeyError on a dict without them")
 
     def mfunc(**over):
         f = dict(func=OpaqueOf("userfunc", __name__=STR), ignore=OpaqueOf("ignorelist"), mmap_mode=None, compress=False, _verbose=INT,
@@ -519,7 +532,7 @@ def build():
     p.add(call_m)
 
     cached = Contract(
-        MEM, "MemorizedFunc._cached_call", props=["C02", "C06", "C05", "C12", "C14"], ghost=GHOST, globals=glob, setup=setup,
+        MEM, "MemorizedFunc._cached_call", props=["C02", "C06", "C05", "C12", "C14", "C11"], ghost=GHOST, globals=glob, setup=setup,
         inline={"_get_memorized_result", "_load_item"},
         params=dict(self=mfunc(), args=(), kwargs=PyDict({}), shelving=OneOf(False, True)),
         requires=PRE,
